@@ -664,6 +664,9 @@ fn c16_cfg(t: Tier) -> GenCfg {
   c.bottom_up_weight = 3;
   // Aborted builds (task failures) are part of the history that must replay identically.
   c.task_panic_share = 2;
+  // So are checker errors: the order of Session::dependency_check_errors is part of the digest.
+  c.faulty = true;
+  c.fault_steps = true;
   c
 }
 
@@ -689,6 +692,12 @@ fn c16_judge(case: &Case, run: &Run, an: &Analysis, stats: &mut Stats) -> CheckR
     let _ = engine::run_case(&other, &Opts::default());
     let again = engine::run_case(case, &Opts::default());
     if run_digest(&again) != d0 {
+      if again.log == run.log {
+        let brief = |r: &Run| -> Vec<String> { r.sessions.iter().flat_map(|s| s.builds.iter().map(|b| format!("{:?} -> {:?}, dependency-check errors {:?}, resources {:?}", b.kind, b.result, b.dep_errors, b.state_after))).collect() };
+        let (a, b) = (brief(run), brief(&again));
+        let i = a.iter().zip(b.iter()).position(|(x, y)| x != y).unwrap_or(0);
+        return Err(Failure::new(format!("[c16-replay] in-process replay #{}: same event/operation log, but build #{} differs: {} vs {}", k + 1, i, a.get(i).cloned().unwrap_or_default(), b.get(i).cloned().unwrap_or_default())));
+      }
       let i = again.log.iter().zip(run.log.iter()).position(|(a, b)| a != b).unwrap_or(again.log.len().min(run.log.len()));
       return Err(Failure::new(format!("[c16-replay] in-process replay #{} differs at log entry {}: {:?} vs {:?}", k + 1, i, run.log.get(i), again.log.get(i))));
     }
